@@ -192,6 +192,10 @@ type clRun struct {
 	removedAt map[string]time.Duration // address -> time it was last seen leaving the list
 	woSince   map[string]int           // address -> index of first io op issued after it appeared as WO
 
+	verifyReads  int
+	lastPromoted string
+	hooks        map[string]int
+	httpDrops    map[string]*[2]int
 	everWild     []bool
 	reverted     bool
 	foldsAtWO    map[string]int64
@@ -324,6 +328,16 @@ func (cr *clRun) rep(a int64) *repNode { return cr.c.reps[int(a)%len(cr.c.reps)]
 
 func (cr *clRun) exec(i int, op Op) {
 	c := cr.c
+	// after a promotion: full-volume reads through the frontend, so that every RW
+	// replica (the promoted one included) serves one from its in-memory block map
+	for cr.verifyReads > 0 && !cr.stopped() && op.K != "boot" {
+		cr.verifyReads--
+		if _, up := c.fe.up(); !up || cr.m.size > 1<<20 {
+			break
+		}
+		cr.issueIO(1000000+i*100+cr.verifyReads, Op{K: "r", A: 0, B: cr.m.size / sect})
+		cr.res.stat("post_promotion_verify_reads", 1)
+	}
 	switch op.K {
 	case "boot":
 		// wait until the volume is up with all started replicas RW (bounded)
@@ -412,6 +426,19 @@ func (cr *clRun) exec(i int, op Op) {
 				cr.res.stat("fault_conn_stall", 1)
 			}
 		}
+	case "httpfault":
+		// the next B HTTP exchanges between the controller and replica A lose their
+		// request (F=false) or their response after the handler ran (F=true)
+		rn := cr.rep(op.A)
+		cr.armHTTPFault(rn, int(op.B), op.F)
+		cr.faultsActive = true
+		cr.note("httpfault", fmt.Sprintf("%s-%v", rn.name, op.F))
+	case "hook":
+		// arm a cooperative fault point on replica A: B selects the site, C the effect
+		rn := cr.rep(op.A)
+		cr.armHook(rn, int(op.B), int(op.C))
+		cr.faultsActive = true
+		cr.note("hook", fmt.Sprintf("%s-%d-%d", rn.name, op.B%4, op.C%2))
 	case "settle":
 		cr.settle()
 	case "snap", "resize", "delsnap", "revert", "rmrep", "seterr", "addrep", "verify":
@@ -423,6 +450,91 @@ func (cr *clRun) exec(i int, op Op) {
 // timeouts (30s rpc, 40s ping, 120s black-holed HTTP without client timeout) are
 // legal; beyond 900 simulated seconds it is reported as hung.
 const hangLimit = 900 * time.Second
+
+var hookSites = []string{"PanicAfterPrepareRebuild", "AddUpdateLUNMapTimeout", "AddPreloadTimeout", "PanicWhileSettingCheckpoint"}
+
+// armHook: one-shot "buggify" point. Effect 0: the process crashes exactly there;
+// effect 1: the goroutine pauses there for a few simulated seconds (foreground
+// I/O and other requests keep flowing through the window).
+func (cr *clRun) armHook(rn *repNode, site, effect int) {
+	name := hookSites[site%len(hookSites)]
+	if cr.hooks == nil {
+		cr.hooks = map[string]int{}
+		cr.c.hookFn = func(g *simrt.G, hook string, args ...interface{}) {
+			if g == nil || g.Node == nil {
+				return
+			}
+			key := g.Node.Name + "/" + hook
+			cr.c.mu.Lock()
+			eff, ok := cr.hooks[key]
+			if ok {
+				delete(cr.hooks, key)
+			}
+			cr.c.mu.Unlock()
+			if !ok {
+				return
+			}
+			cr.res.stat("hook_fired_"+hook, 1)
+			if eff%2 == 0 {
+				panic("injected crash at " + hook)
+			}
+			simrt.Sleep(time.Duration(2+cr.w.Rand(key)%8) * time.Second)
+		}
+	}
+	cr.c.mu.Lock()
+	cr.hooks[rn.name+"/"+name] = effect
+	cr.c.mu.Unlock()
+	cr.res.stat("hook_armed", 1)
+}
+
+func (cr *clRun) armHTTPFault(rn *repNode, n int, dropResp bool) {
+	if n <= 0 {
+		n = 1
+	}
+	if cr.httpDrops == nil {
+		cr.httpDrops = map[string]*[2]int{}
+		cr.c.httpFault = func(r *simrt.HTTPReqInfo) simrt.HTTPVerdict {
+			var peer string
+			switch {
+			case r.From != nil && r.From.Name == "ctrl" && r.To != nil:
+				peer = r.To.Name
+			case r.To != nil && r.To.Name == "ctrl" && r.From != nil:
+				peer = r.From.Name
+			default:
+				return simrt.HTTPDeliver
+			}
+			cr.c.mu.Lock()
+			defer cr.c.mu.Unlock()
+			d := cr.httpDrops[peer]
+			if d == nil {
+				return simrt.HTTPDeliver
+			}
+			if d[0] > 0 {
+				d[0]--
+				cr.res.stat("fault_http_request_dropped", 1)
+				return simrt.HTTPDropReq
+			}
+			if d[1] > 0 {
+				d[1]--
+				cr.res.stat("fault_http_response_dropped", 1)
+				return simrt.HTTPDropResp
+			}
+			return simrt.HTTPDeliver
+		}
+	}
+	cr.c.mu.Lock()
+	d := cr.httpDrops[rn.name]
+	if d == nil {
+		d = &[2]int{}
+		cr.httpDrops[rn.name] = d
+	}
+	if dropResp {
+		d[1] += n
+	} else {
+		d[0] += n
+	}
+	cr.c.mu.Unlock()
+}
 
 func (cr *clRun) replaceIsSafe(rn *repNode) bool {
 	c := cr.c
@@ -769,6 +881,8 @@ func (cr *clRun) onQuiescent() {
 	cr.qpoints++
 	if promoted != "" {
 		cr.pendingPromo = promoted
+		cr.lastPromoted = promoted
+		cr.verifyReads = 2*len(list) + 1 // enough round-robin reads to be served by every RW replica
 	}
 	if cr.idleIO() && cr.curAdmin == nil { // (a management operation in flight changes the model only when it returns)
 		if cr.pendingPromo != "" {
@@ -880,11 +994,45 @@ func (cr *clRun) judgeIO(o *ioOp) {
 			}
 		}
 	}
+	if o.kind == "r" && o.n > 0 && len(o.frames) > 0 {
+		// C04/C05: a replica that failed this read (request sent, no success reply
+		// delivered for it) must be detached by the time the read returns
+		reqSeq := map[string]uint32{}
+		for _, q := range o.frames {
+			reqSeq[q.conn.Key()] = q.f.Seq
+		}
+		answered := map[string]bool{}
+		for _, r := range o.replies {
+			if seq, ok := reqSeq[r.conn.Key()]; ok && r.f.Seq == seq && (r.f.Type == tResponse || r.f.Type == tEOF) {
+				answered[cr.addrOf(r.target)] = true
+			}
+		}
+		if cr.lockFree() {
+			cur := cr.c.ctrl.ListReplicas()
+			for _, q := range o.frames {
+				a := cr.addrOf(q.target)
+				if !answered[a] && (modeOf(cur, a) == types.RW || modeOf(cur, a) == types.WO) && cr.epoch[a] == o.epochs[a] {
+					prop := "C04"
+					if cr.s.Prop == "C05" {
+						prop = "C05" // both statements require the failed replica to be detached
+					}
+					cr.viol(prop, "failed-reader-still-attached", "read %d: %s was asked and did not answer successfully, yet it is still listed as %s after the read returned (list before %v, after %v)", o.idx, a, modeOf(cur, a), o.list, cur)
+					return
+				}
+			}
+		}
+	}
 	if o.kind == "r" && o.n > 0 {
 		if o.ok() {
 			cr.compares++
 			if ok, why, bad := cr.m.check2(o.buf, o.off, false); !ok {
 				clause := "read-returned-wrong-data"
+				if o.idx >= 1000000 && len(o.frames) > 0 && cr.addrOf(o.frames[len(o.frames)-1].target) == cr.lastPromoted {
+					// a verification read right after a promotion, served by the promoted
+					// replica from its in-memory block map: that is C07's clause
+					cr.viol("C07", "promoted-replica-serves-wrong-data", "read %d served by the just promoted %s: %s", o.idx, cr.lastPromoted, why)
+					return
+				}
 				for _, rn := range cr.c.reps {
 					if w := cr.unalignedWriteWhileWO(rn.addr, bad); w != nil {
 						clause += "/unaligned-write-during-rebuild"
@@ -1004,6 +1152,10 @@ func (cr *clRun) settle() {
 		conn.ReleaseHeld()
 	}
 	c.httpFault = nil
+	cr.httpDrops = nil
+	cr.c.mu.Lock()
+	cr.hooks = map[string]int{}
+	cr.c.mu.Unlock()
 	cr.faultsActive = false
 	started := 0
 	for _, rn := range c.reps {
@@ -1183,8 +1335,9 @@ func (clustersim) Generate(rng *Rand, prop, tier string) *Script {
 		add(Op{K: "wait"})
 		busy = map[int64]bool{}
 	}
-	fault := func() {
-		r := int64(rng.Intn(nreps))
+	var faultOn func(r int64)
+	fault := func() { faultOn(int64(rng.Intn(nreps))) }
+	faultOn = func(r int64) {
 		switch x := rng.Intn(100); {
 		case x < 35:
 			add(Op{K: "kill", A: r})
@@ -1192,8 +1345,12 @@ func (clustersim) Generate(rng *Rand, prop, tier string) *Script {
 			add(Op{K: "resetconn", A: r})
 		case x < 70:
 			add(Op{K: "stall", A: r, B: int64(rng.Intn(2))})
-		case x < 85:
+		case x < 80:
 			add(Op{K: "part", A: r})
+		case x < 88:
+			add(Op{K: "httpfault", A: r, B: int64(rng.Range(1, 3)), F: rng.Bool(60)})
+		case x < 94:
+			add(Op{K: "hook", A: r, B: int64(rng.Intn(4)), C: int64(rng.Intn(2))})
 		default:
 			add(Op{K: "kill", A: r})
 			add(Op{K: "kill", A: int64(rng.Intn(nreps))})
@@ -1258,6 +1415,47 @@ func (clustersim) Generate(rng *Rand, prop, tier string) *Script {
 		x := rng.Intn(100)
 		if (prop == "C13" || prop == "C16" || prop == "C11") && rng.Bool(50) {
 			x = 95
+		}
+		if rf >= 2 && rng.Bool(30) {
+			// rebuild window: faults and I/O while a replica is WO
+			victim := int64(rng.Intn(nreps))
+			if rng.Bool(40) {
+				snapID++
+				add(Op{K: "snap", A: snapID})
+			}
+			for i, k := 0, rng.Range(0, 2); i < k; i++ {
+				genIO()
+			}
+			wait()
+			add(Op{K: "kill", A: victim})
+			add(Op{K: "adv", A: int64(rng.Range(100, 3000))})
+			genIO()
+			wait()
+			if rng.Bool(60) {
+				add(Op{K: "hook", A: victim, B: int64(1 + rng.Intn(2)), C: 1}) // pause inside UpdateLUNMap / preload
+			}
+			add(Op{K: "restart", A: victim})
+			add(Op{K: "adv", A: int64(rng.Range(5, 2500))})
+			for i, k := 0, rng.Range(1, 5); i < k; i++ {
+				genIO()
+				if rng.Bool(35) {
+					if rng.Bool(50) {
+						faultOn(victim)
+					} else {
+						fault()
+					}
+				}
+				if rng.Bool(50) {
+					add(Op{K: "adv", A: int64(rng.Range(1, 1500))})
+				}
+			}
+			wait()
+			add(Op{K: "boot", A: 120})
+			for i, k := 0, rng.Range(1, 3); i < k; i++ {
+				genIO()
+			}
+			wait()
+			continue
 		}
 		if prop == "C07" && rng.Bool(40) {
 			x = 70
